@@ -29,12 +29,12 @@ RULE = (
     "two segments / one bond; distinct = distinct digest of the logged inputs."
 )
 STRATA = {
-    "residue_views": (5000, 100000),
-    "chain_views": (5000, 100000),
-    "segment_generic": (3000, 50000),
-    "index_arrays": (3000, 50000),
-    "molecules_small": (3000, 50000),
-    "molecules_large": (64, 900),
+    "residue_views": (10000, 250000),
+    "chain_views": (10000, 250000),
+    "segment_generic": (6000, 120000),
+    "index_arrays": (6000, 120000),
+    "molecules_small": (6000, 120000),
+    "molecules_large": (96, 1500),
 }
 REQUIRED_ORACLES = [
     "starts_vs_recomputation",
